@@ -47,7 +47,10 @@ def mag(q):
 
 def suite_convert(ctx, case):
     convs = case['convs']
-    ucs = [UnitConverter(dc=c['dc'], dc_unit=c['dc_unit'], ec=c['ec'], ec_unit=c['ec_unit']) for c in convs]
+    def num(v, how):
+        # characteristic values as they come out of an analysis: numpy scalars (array.mean(), array[i]) are numbers too
+        return np.float64(v) if how == 'np' else np.array([v, v]).mean() if how == 'mean' else v
+    ucs = [UnitConverter(dc=num(c['dc'], c.get('numtype')), dc_unit=c['dc_unit'], ec=num(c['ec'], c.get('numtype')), ec_unit=c['ec_unit']) for c in convs]
     drv = ctx.drv
     for ci, meth, arg, d in case['calls']:
         conv = convs[ci]; uc = ucs[ci]
@@ -114,7 +117,8 @@ SUITES = {'convert': suite_convert}
 def gen_conv(rng):
     digits = rng.choice([3, 6, 10, 12])
     return {'dc': float(('%%.%dg' % digits) % (10 ** rng.uniform(-1, 1.5))), 'dc_unit': rng.choice(list(LEN)[:3] if rng.random() < 0.9 else ['meter']),
-            'ec': float(('%%.%dg' % digits) % (10 ** rng.uniform(-2, 2) * rng.choice([1.0, 2.4943387854]))), 'ec_unit': rng.choice(list(EN))}
+            'ec': float(('%%.%dg' % digits) % (10 ** rng.uniform(-2, 2) * rng.choice([1.0, 2.4943387854]))), 'ec_unit': rng.choice(list(EN)),
+            'numtype': rng.choice([None, None, 'np', 'mean'])}
 
 def generate(ctx):
     rng = ctx.rng
@@ -132,7 +136,8 @@ def generate(ctx):
         for _ in range(rng.randint(4, 10)):
             meth = rng.choice(METHODS)
             c0 = rng.random()
-            if c0 < 0.5: arg = float('%.8g' % (10 ** rng.uniform(-3, 2)))
+            if c0 < 0.06: arg = rng.choice([0.0, 0, [0.0, 0.5, 1.0], [0, 1, 2]])                 # the boundary value 0 (a ramp np.linspace(0, 2, 5))
+            elif c0 < 0.5: arg = float('%.8g' % (10 ** rng.uniform(-3, 2)))
             elif c0 < 0.6: arg = rng.randint(1, 40)                                              # a Python int
             elif c0 < 0.72: arg = [rng.randint(1, 40) for _ in range(rng.randint(2, 6))]          # an integer-typed array (np.arange(1, 5))
             else: arg = [float('%.8g' % (10 ** rng.uniform(-3, 2))) for _ in range(rng.randint(2, 6))]
